@@ -179,6 +179,16 @@ class Check:
         theorem in Props*.v and the Print Assumptions output found in the build log."""
         d = COQ / engine
         self.forbid_scan(engine)
+        import fcntl
+        lockf = open(d / ".build.lock", "w")
+        fcntl.flock(lockf, fcntl.LOCK_EX)  # concurrent checks sharing an engine must not interleave their makes
+        try:
+            return self._coq_build_locked(engine, d, timeout, jobs, props)
+        finally:
+            fcntl.flock(lockf, fcntl.LOCK_UN)
+            lockf.close()
+
+    def _coq_build_locked(self, engine, d, timeout, jobs, props):
         cmd = "coq_makefile -f _CoqProject -o Makefile.coq >/dev/null && make -f Makefile.coq -j%d" % jobs
         self.cov["checker_cmd"] = (self.cov["checker_cmd"] + " ; " if self.cov["checker_cmd"] else "") + (
             "cd coq/%s && %s" % (engine, cmd)
